@@ -924,6 +924,8 @@ func (d *Driver) begin(j *job) {
 				os.MkdirAll(ext, 0755)
 				writeFile(path.Join(ext, "big.bin"), []byte(strings.Repeat("x", 5000)))
 				os.Symlink(ext, path.Join(tmp, "extlink"))
+				// ... and, among its files, a link to a FILE elsewhere (reference data)
+				os.Symlink(path.Join(ext, "big.bin"), path.Join(j.vj.FilesPath, "extref.bin"))
 			}
 			d.fmu.Lock()
 			d.tmps[j.key] = path.Join(tmp, "scratch.dat")
